@@ -42,6 +42,7 @@ def tune_for(rng: random.Random) -> dict:
     t['unknown'] = rng.random() < 0.04
     t['p_bad'] = rng.choice([0.0, 0.05, 0.15, 0.3])
     t['p_can'] = rng.choice([0.0, 0.2, 0.5])
+    t['p_probe'] = rng.choice([0.0, 0.15, 0.4])
     return t
 
 
@@ -91,6 +92,16 @@ def play_case(case_id: str, seed: int, force_variant=None, profile=None, max_ops
             bad = True
         if rng.random() < tune['p_can']:
             sess.can(line)
+        if rng.random() < tune['p_probe']:
+            with impl.warnings.catch_warnings():
+                impl.warnings.simplefilter('ignore')
+                try:
+                    probes = gen.boundary_probes(rng, s)
+                except Exception:  # noqa: BLE001
+                    probes = []
+            for pl in probes[:6]:
+                sess.can(pl)
+                stats['probe'] += 1
         before = len(s.operations)
         e = sess.op(line, valid=not bad)
         valid_flags.append(0 if bad else 1)
